@@ -61,6 +61,39 @@ def ring_of(expr, aliases=None):
     return None
 
 
+SCRIBBLE_TEXTS = ('plain note', '', '  padded  ', 'two\nlines', 'percent %s %d %%', 'braces {} {0} {name}', 'escaped {{x}}', "{'k': [1, 2]}", 'tail }', 'héllo')
+
+
+def scribble_verbatim(run, model):
+    """SPY.scribble: evaluate scribble() on a scratch chart for a finite set of texts (format metacharacters, padding, line breaks) - the step log gains exactly
+    that text when the chart is instrumented and nothing otherwise"""
+    from sa import pureeval
+    run.rule('SPY.scribble', 'scribble(text) appends exactly `text` to the step log when instrumented, nothing otherwise (evaluated over %d texts)' % len(SCRIBBLE_TEXTS))
+    fs = [f for f in model.all_funcs() if f.name == 'scribble' and f.cls is not None]
+    if not fs:
+        raise AnalysisError('scribble not found')
+    for f in fs:
+        run.touch(f)
+        bad = None
+        for inst in (True, False):
+            for text in SCRIBBLE_TEXTS:
+                chart = pureeval.Obj(instrumented=inst, rtc=pureeval.Obj(spy=[], tuples=[]), full=pureeval.Obj(spy=[], trace=[]), name='chart')
+                try:
+                    pureeval.call(f.node, [chart, text], globals_=pureeval.module_constants(model, f.module), mutable=True, strict_locals=True)
+                    got = list(chart.rtc.spy)
+                except pureeval.Raised as ex:
+                    got = 'raises %s' % ex.what
+                want = [text] if inst else []
+                if got != want:
+                    bad = bad or (inst, text, got)
+        run.inst('SPY.scribble', f, 'scribble(text): step log gains exactly [text] when instrumented', bad is None,
+                 '' if bad is None else ('%s(%r) on a chart with instrumented=%s leaves the step log as %s, expected %r: the scribble marker of the step is not the text the '
+                                         'handler wrote (texts with format metacharacters - a dict repr, JSON, "{}" - are altered or abort the step, so the lines of that step '
+                                         'never reach the full spy)' % (f.qualname, bad[1], bad[0], bad[2] if isinstance(bad[2], str) else repr(bad[2]), [bad[1]] if bad[0] else [])),
+                 obligation=True)
+    run.floor('scribble definitions', len(fs), 1)
+
+
 def check(run, model, tier):
     run.explanation = ('Dominance and control-dependence analysis of the spy wrapper and of the marker wrappers, plus a who-writes census of the four '
                        'ring buffers over the whole package. Because all 29 handler-call sites of the processor go through the decorated handler '
@@ -253,6 +286,8 @@ def check(run, model, tier):
     marker_wrapper('append_lifo_to_spy', 'POST_LIFO:', 'after')
     marker_wrapper('append_defer_to_spy', 'POST_DEFERRED:', 'after')
     marker_wrapper('append_recall_to_spy', 'RECALL:', 'before')
+    # ---- scribble: the documented marker for user notes carries the caller's text unchanged
+    scribble_verbatim(run, model)
     # reflection pairs
     for facname in ('append_queue_reflection_after_start', 'append_queue_reflection_to_spy'):
         fac = [f for f in cg.factories if f.name == facname]
